@@ -3,7 +3,7 @@
 SIZES = [0, 0, 8, 24, 32, 33, 40, 100]
 
 
-def gen_program(r, lps=None, heavy_mem=False, ties=True, target=None, zero_ts=False, relay=False):
+def gen_program(r, lps=None, heavy_mem=False, ties=True, target=None, zero_ts=False, relay=False, sparse=False, libm=False):
     lps = lps or r.choice([1, 2, 3, 4, 5, 8, 12, 16])
     ntypes = r.range(2, 6)
     ncls = r.range(1, 3)
@@ -12,6 +12,8 @@ def gen_program(r, lps=None, heavy_mem=False, ties=True, target=None, zero_ts=Fa
     sizes = SIZES if not p["plmode"] else [0, 33, 40, 40, 100, 100]     # ties on the first 32 payload bytes need payloads beyond 32 bytes
     for lp in range(lps):
         k = r.choice([0, 1, 1, 2, 3]) if lps > 1 else r.range(1, 3)
+        if sparse:
+            k = r.range(2, 5)      # several initial events per LP: half of the handlers send nothing
         for _ in range(k):
             p["inits"].append((lp, 0 if zero_ts and r.chance(1, 2) else r.choice([0, 1, 1, 2, 5, 8]), r.below(ntypes), r.choice(sizes)))
     if not p["inits"]:
@@ -19,13 +21,15 @@ def gen_program(r, lps=None, heavy_mem=False, ties=True, target=None, zero_ts=Fa
     for ty in range(ntypes):
         for cls in range(ncls):
             draws = [r.below(3) for _ in range(r.choice([0, 0, 1, 2, 3]))]
+            if libm:    # Expent, Normal, Gamma, Zipf, RandomRangeNonUniform: odd and even numbers of draws per event
+                draws = [r.choice([0, 1, 2, 3, 4, 4, 4, 5, 6, 7]) for _ in range(r.choice([1, 1, 2, 3]))]
             mem = []
             for _ in range(r.choice([0, 0, 1, 2]) if not heavy_mem else r.choice([1, 2, 3])):
                 op = r.choice([1, 2, 3, 3, 4, 4])
                 n = r.choice([1, 2, 8, 9, 100, 1000]) if not heavy_mem else r.choice([1, 8, 512, 4096, 8192, 8192, 3000])
                 mem.append((op, r.below(4), n))
             outs = []
-            for _ in range(r.choice([0, 1, 1, 1, 2, 2, 3])):
+            for _ in range(r.choice([0, 1, 1, 1, 2, 2, 3]) if not sparse else r.choice([0, 0, 0, 1, 2, 3])):
                 dt = r.choice([0, 0, 1, 1, 2, 3, 5, 7]) if ties else r.range(1, 9)
                 oty = r.below(ntypes)
                 if dt == 0:
